@@ -537,8 +537,8 @@ def run_weight(spec, rec, dadi, DFE):
 def run_sched(spec, rec, dadi, DFE):
     global EVENT_FILE
     tmp = os.environ.get("VERIF_BATCH_SCRATCH", ".")
-    kw2 = dict(pts=[10, 20, 30], gamma_bounds=(1e-2, 200.0), gamma_pts=6, additional_gammas=[5.0])
-    kw1 = dict(pts=[10, 20, 30], gamma_bounds=(1e-2, 200.0), gamma_pts=17, additional_gammas=[5.0, 9.0])
+    kw2 = dict(pts=[10, 20, 30], gamma_bounds=(1e-2, 200.0), gamma_pts=6, additional_gammas=[12.0, 5.0])      # (not in ascending order)
+    kw1 = dict(pts=[10, 20, 30], gamma_bounds=(1e-2, 200.0), gamma_pts=17, additional_gammas=[9.0, 2.5, 5.0])   # (not in ascending order)
     ref2 = DFE.Cache2D((), (2, 2), synth2, cpus=1, **kw2)
     ref1 = DFE.Cache1D((), (6,), synth1, cpus=1, **kw1)
     cpu_list = [2, 3, 5] if spec["part"] == "a" else [8, 16]
